@@ -12,6 +12,8 @@
 //     a/<dst>/<src>    node(dst) = node(src)                         whole node (tag, then kids)
 //     p/<dst>/<src>    node(dst).kids += node(src).kids              copy merge
 //     q/<dst>/<src>    node(dst).kids += Move(node(src).kids)        move merge
+//     i/<dst>/<key>/<src>  node(dst).kids.Insert(key, node(src))      const-value Insert; node(src) may be an element
+//                          of the very table it is inserted into (value semantics: the argument is read first)
 //     y/<path>         { Kids t(node.kids); node.kids = t; }         copy-construct, assign back
 //     Y/<path>         { Kids t(node.kids); node.kids = Move(t); }
 //   Output: dump of the whole tree after every op, '|'-joined.  dump(node) = <tag>[key=dump;key=dump...]
@@ -128,6 +130,19 @@ static std::string run(const std::string &prog) {
                 else if (k == 'z') p->kids.Compress();
                 else if (k == 'y') { Kids t(p->kids); p->kids = t; }
                 else { Kids t(p->kids); p->kids = Memory::Move(t); }
+            } else if (k == 'i' && f.size() == 4) {
+                Node       *d = at(root, f[1]), *sn = at(root, f[3]);
+                std::string key;
+                if (!d || !sn) return "bad-path";
+                if (!parse_key(f[2], key)) return "bad-op";
+                static unsigned rot = 0;
+                const char     *kp  = key.data(); // const: String(const Char_T *, len) copies, (Char_T *, len) would adopt
+                if (rot++ % 2) {
+                    Key kk(kp, SizeT(key.size()));
+                    d->kids.Insert(kk, *sn); // (const Key_T &, const Value_T &)
+                } else {
+                    d->kids.Insert(Key(kp, SizeT(key.size())), *sn); // (Key_T &&, const Value_T &)
+                }
             } else if ((k == 'c' || k == 'm' || k == 'a' || k == 'p' || k == 'q') && f.size() == 3) {
                 Node *d = at(root, f[1]), *s = at(root, f[2]);
                 if (!d || !s) return "bad-path";
